@@ -33,10 +33,13 @@ type scenario struct {
 	// everything), Close() is called while the messages are still pending, then the gate opens:
 	// everything submitted before Close must still be processed exactly once.
 	CloseEarly bool `json:"closeEarly"`
+	// PollState (actors): while the senders run, a monitor goroutine and the effect itself keep asking
+	// IsClosed(): a question, not an operation - it answers false on the open actor and takes nothing away
+	PollState bool `json:"pollState"`
 }
 
 func (s scenario) String() string {
-	return fmt.Sprintf("%s cap=%d counts=%v work=%d gap=%d late=%d closeEarly=%v", s.Kind, s.Cap, s.Counts, s.Work, s.SendGap, s.PostLate, s.CloseEarly)
+	return fmt.Sprintf("%s cap=%d counts=%v work=%d gap=%d late=%d closeEarly=%v pollState=%v", s.Kind, s.Cap, s.Counts, s.Work, s.SendGap, s.PostLate, s.CloseEarly, s.PollState)
 }
 
 type tag struct{ sender, seq int }
@@ -103,6 +106,7 @@ func genScenario(t *rapid.T) scenario {
 	s.Work = rapid.SampledFrom([]int{0, 0, 1, 3}).Draw(t, "work")
 	s.SendGap = rapid.SampledFrom([]int{0, 0, 1, 2}).Draw(t, "gap")
 	s.PostLate = rapid.IntRange(0, 3).Draw(t, "late")
+	s.PollState = s.Kind != "handler" && rapid.IntRange(0, 2).Draw(t, "pollState") == 0
 	if s.Cap >= 1 && rapid.IntRange(0, 2).Draw(t, "closeEarly") == 0 {
 		// keep the total within the mailbox capacity so that all senders can finish while the gate is shut
 		s.CloseEarly = true
@@ -131,6 +135,8 @@ func runScenario(s scenario) result {
 	}
 	var send func(tg tag)
 	var closeIt func()
+	var isClosed func() bool
+	var closedTooEarly int32
 	var actor *fpgo.ActorDef[tag]
 	switch s.Kind {
 	case "handler":
@@ -147,6 +153,9 @@ func runScenario(s scenario) result {
 			if self != actor {
 				atomic.AddInt32(&mb.wrongSelf, 1)
 			}
+			if s.PollState && !s.CloseEarly && self.IsClosed() {
+				atomic.AddInt32(&closedTooEarly, 1)
+			}
 			mb.process(tg, s.Work)
 		}
 		var factory fpgo.ActorDef[tag]
@@ -162,6 +171,7 @@ func runScenario(s scenario) result {
 		}
 		send = func(tg tag) { actor.Send(tg) }
 		closeIt = actor.Close
+		isClosed = actor.IsClosed
 	case "actorAsk":
 		// an actor of interface{} messages; every other submission of a sender goes through
 		// Ask.AskChannel (which submits the request object to the same mailbox) instead of Send
@@ -191,7 +201,37 @@ func runScenario(s scenario) result {
 			}
 		}
 		closeIt = anyActor.Close
+		isClosed = anyActor.IsClosed
 	}
+	stopPoll := make(chan struct{})
+	pollDone := make(chan struct{})
+	if s.PollState && isClosed != nil && !s.CloseEarly {
+		go func() {
+			defer close(pollDone)
+			for {
+				select {
+				case <-stopPoll:
+					return
+				default:
+				}
+				if isClosed() {
+					atomic.AddInt32(&closedTooEarly, 1)
+				}
+				runtime.Gosched()
+			}
+		}()
+	} else {
+		close(pollDone)
+	}
+	stopPolling := func() {
+		select {
+		case <-stopPoll:
+		default:
+			close(stopPoll)
+		}
+		<-pollDone
+	}
+	defer stopPolling()
 	total := 0
 	for _, c := range s.Counts {
 		total += c
@@ -276,8 +316,17 @@ func runScenario(s scenario) result {
 		}
 		return res
 	}
+	stopPolling()
+	if n := atomic.LoadInt32(&closedTooEarly); n > 0 {
+		res.failKey, res.failMsg = "C12/isclosed", fmt.Sprintf("IsClosed() answered true %d times while the actor was open", n)
+		return res
+	}
 	if !closedEarly {
 		closeIt()
+	}
+	if isClosed != nil && !isClosed() {
+		res.failKey, res.failMsg = "C12/isclosed", "IsClosed() is false after Close() returned"
+		return res
 	}
 	// submissions after Close has returned must be dropped, without panic
 	lateBefore := atomic.LoadInt64(&lateRuns)
